@@ -3,7 +3,7 @@
    [src_shape], the decision shapes tools/src2coq.py reads from rotatingfilesink.cpp / filesink.cpp /
    iodevicesink.cpp on every run.  [run src_shape c t0 ops] is the model the check executes against
    the real sink (coq/extract/Ex_rotate.v extracts these very definitions).
-   Quantification: every op list [ops] (Write of any payload / Advance of the wall clock, never
+   Quantification: every op list [ops] (Write of any payload and any message type / Advance of the wall clock, never
    backwards / Restart / PutForeign), every configuration [c] (any L, any N, all 8 option sets, three
    timestamp granularities, any base name and suffix, any time zone offset within +-24 h), any start time.  Hypothesis [clean c ops]:
    nobody else creates files that follow the sink's own rotated-name scheme (PutForeign names are
@@ -82,6 +82,6 @@ Print Assumptions C06_foreign_names_stay_foreign.
    crossed, the two newest rotated files survive, a look-alike foreign name is rejected *)
 Example C06_nonvacuous :
   let c := {| cL := 2; cN := 3; startup := false; daily := false; compress := false; cgran := G1s; cbase := [97%N]; csuffix := [108%N]; ctz := 0 |} in
-  let w := run src_shape c 1700000000000 (repeat (Write [120%N]) 11) in
+  let w := run src_shape c 1700000000000 (repeat (Write TInfo [120%N]) 11) in
   (map fidx (gone w), map fidx (rot w), map rid (act w), parse_name c [120%N; 97%N; 46%N]) = ([1; 2; 3; 4; 5; 6; 7; 8], [9; 10], [10%nat], None).
 Proof. vm_compute. reflexivity. Qed.
